@@ -143,13 +143,23 @@ def run(ctx):
                 continue
             n_conv += 1
             node = cfg.header_node_for_expr(n) or cfg.node_of(n)
-            facts = [(t, p) for t, p, _ in cfg.facts_at(node.id)]
+            from ..core import expr_conditions
+
+            facts = [(t, p) for t, p, _ in cfg.facts_at(node.id)] + [(norm(e0), p0) for e0, p0 in expr_conditions(n)]
             vname = norm(conv_arg)
             not_dt = False
             for t, p in facts:
                 try:
                     e = ast.parse(t, mode="eval").body
                 except SyntaxError:
+                    continue
+                # decompose negations / disjunctions that are known false
+                if isinstance(e, ast.UnaryOp) and isinstance(e.op, ast.Not):
+                    e, p = e.operand, not p
+                if isinstance(e, ast.BoolOp) and isinstance(e.op, ast.Or) and p is False:
+                    for sub in e.values:
+                        if is_datetime_test(prog, m, sub) and norm(sub.args[0]) == vname:
+                            not_dt = True
                     continue
                 if p is False and is_datetime_test(prog, m, e) and norm(e.args[0]) == vname:
                     not_dt = True
@@ -218,10 +228,21 @@ def run(ctx):
     ctx.check(jok, "R13.4", "JsonRecordPacker.pack_obj:datetime", "JSON does not store timestamps as isoformat()", jp, "obj.isoformat()", key="R13.4:json:datetime-form")
     dbi = ctx.anchor_func("flow.record.adapter.sqlite.db_insert_record")
     sok = False
-    for st in ast.walk(dbi):
-        if isinstance(st, ast.If) and is_datetime_test(prog, dbi._module, st.test):
-            v = norm(st.test.args[0])
-            sok = any(isinstance(a, ast.Assign) and _is_lossless_isoformat(a.value, v) for a in ast.walk(ast.Module(body=st.body, type_ignores=[])))
+    from ..core import expr_conditions as _ec
+
+    dcfg2 = CFG(dbi)
+    for c in calls_in(dbi, nested=True):
+        if isinstance(c.func, ast.Attribute) and c.func.attr == "isoformat" and isinstance(c.func.value, ast.Name) and _is_lossless_isoformat(c, c.func.value.id):
+            v = c.func.value.id
+            nd = dcfg2.header_node_for_expr(c) or dcfg2.node_of(c)
+            conds = [(t, p) for t, p, _ in dcfg2.facts_at(nd.id)] + [(norm(e0), p0) for e0, p0 in _ec(c)]
+            for t, p in conds:
+                try:
+                    e = ast.parse(t, mode="eval").body
+                except SyntaxError:
+                    continue
+                if p and is_datetime_test(prog, dbi._module, e) and norm(e.args[0]) == v:
+                    sok = True
     ctx.check(sok, "R13.4", "sqlite.db_insert_record:datetime", "SQLite does not store timestamps as isoformat() under an isinstance(value, datetime) test", dbi, "value.isoformat()",
               key="R13.4:sqlite:datetime-form")
     dts = ctx.anchor_func("flow.record.adapter.avro.descriptor_to_schema")
